@@ -16,6 +16,8 @@ package vs
 
 import (
 	"fmt"
+	"os"
+	"strconv"
 	"hash/fnv"
 	"runtime"
 	"sort"
@@ -132,6 +134,7 @@ type Exec struct {
 	devIdx  int
 	Points  []PointRec
 	sigHash uint32
+	schedGid atomic.Int64
 	sigs    []uint32
 	wantSig uint32 // expected signature hash at the last deviation (0 = unchecked)
 
@@ -289,6 +292,9 @@ func callerName(skip int) string {
 
 // point parks the calling thread on o and returns the alternative chosen for it.
 func (x *Exec) point(t *Thread, o op) int {
+	if g := x.schedGid.Load(); g != 0 && g == goid() {
+		panic("vs: blocking operation inside a scheduler predicate (Block/BlockOrIdle predicates must not lock, sleep or do I/O): " + o.what)
+	}
 	x.mu.Lock()
 	t.op = o
 	t.st = tsParked
@@ -468,6 +474,8 @@ func (x *Exec) descEntry(e *entry) string {
 
 // schedule is called with x.mu held and no thread running.
 func (x *Exec) schedule() {
+	x.schedGid.Store(goid())
+	defer x.schedGid.Store(0)
 	for {
 		if x.ended {
 			return
@@ -858,6 +866,11 @@ func RunOne(o RunOpts, body func(x *Exec)) *Exec {
 	wd := o.Watchdog
 	if wd == 0 {
 		wd = 20 * time.Second
+	}
+	if e := os.Getenv("VS_WATCHDOG_S"); e != "" {
+		if n, err := strconv.Atoi(e); err == nil {
+			wd = time.Duration(n) * time.Second
+		}
 	}
 	select {
 	case <-x.done:
